@@ -194,8 +194,14 @@ class Sim:
                 continue
             _, fr = wire.decode(raw)
             if fr.name == 'Connection.StartOk':
+                # the broker proposes a heartbeat of its own (5 s); the client announces the time-out it is going to keep
                 self.pending_in.append(pframe.marshal(spec.Connection.Tune(
-                    channel_max=2047, frame_max=131072, heartbeat=60), 0))
+                    channel_max=2047, frame_max=131072, heartbeat=5), 0))
+            elif fr.name == 'Connection.TuneOk':
+                want = 0 if self.T is None else self.T
+                if fr.heartbeat != want:
+                    self.monitor.flag('C12/announced-timeout-differs', 'TuneOk announces heartbeat %r, the connection keeps T=%r '
+                                      '(the broker would expect traffic every %r s)' % (fr.heartbeat, want, fr.heartbeat))
             elif fr.name == 'Connection.Open':
                 self.pending_in.append(pframe.marshal(spec.Connection.OpenOk(), 0))
             elif fr.name == 'Connection.Close':
